@@ -4,6 +4,7 @@ import (
 	"fmt"
 	"strconv"
 	"strings"
+	"unicode/utf8"
 )
 
 type ValueKind int
@@ -99,7 +100,7 @@ func (v *Value) String() string {
 	case IntValue, FloatValue, EnumValue, BooleanValue, NullValue:
 		return v.Raw
 	case StringValue, BlockValue:
-		return strconv.Quote(v.Raw)
+		return quoteString(v.Raw)
 	case ListValue:
 		var val []string
 		for _, elem := range v.Children {
@@ -115,6 +116,42 @@ func (v *Value) String() string {
 	default:
 		panic(fmt.Errorf("unknown value kind %d", v.Kind))
 	}
+}
+
+// quoteString writes s as a GraphQL string literal. Unlike strconv.Quote it only
+// uses escapes the GraphQL lexical grammar defines (\" \\ \b \f \n \r \t \uXXXX),
+// so that the result can be parsed back whatever characters s contains.
+func quoteString(s string) string {
+	var b strings.Builder
+	b.WriteByte('"')
+	for i := 0; i < len(s); {
+		r, size := utf8.DecodeRuneInString(s[i:])
+		switch {
+		case r == utf8.RuneError && size == 1:
+			b.WriteByte(s[i])
+		case r == '"':
+			b.WriteString(`\"`)
+		case r == '\\':
+			b.WriteString(`\\`)
+		case r == '\b':
+			b.WriteString(`\b`)
+		case r == '\f':
+			b.WriteString(`\f`)
+		case r == '\n':
+			b.WriteString(`\n`)
+		case r == '\r':
+			b.WriteString(`\r`)
+		case r == '\t':
+			b.WriteString(`\t`)
+		case r <= 0xFFFF && !strconv.IsPrint(r):
+			fmt.Fprintf(&b, `\u%04X`, r)
+		default:
+			b.WriteString(s[i : i+size])
+		}
+		i += size
+	}
+	b.WriteByte('"')
+	return b.String()
 }
 
 func (v *Value) Dump() string {
